@@ -33,6 +33,8 @@ def classes():
             self.fail_at = None  # (k, exception instance) -> k-th _render_ call raises
             self.renders = 0
 
+        hook_at = None  # (k, fn) -> fn() is called from within the k-th _render_ call (a callback run by a render)
+
         def _get_render_size_(self):
             return Size(self.w, self.h)
 
@@ -61,6 +63,9 @@ def classes():
                              d.duration if self.animated else None, render_args))
             if render_data.finalized:
                 self.log.append(("render_with_finalized_data",))
+            if self.hook_at and self.hook_at[0] == self.renders:
+                fn, self.hook_at = self.hook_at[1], None
+                fn()
             if self.fail_at and self.fail_at[0] == self.renders:
                 make = self.fail_at[1]
                 self.fail_at = None  # never keep a raised exception (its traceback pins frames) alive
@@ -125,6 +130,9 @@ def classes():
                              d.duration, render_args))
             if render_data.finalized:
                 self.log.append(("render_with_finalized_data",))
+            if self.hook_at and self.hook_at[0] == self.renders:
+                fn, self.hook_at = self.hook_at[1], None
+                fn()
             if self.fail_at and self.fail_at[0] == self.renders:
                 make = self.fail_at[1]
                 self.fail_at = None  # never keep a raised exception (its traceback pins frames) alive
